@@ -262,13 +262,30 @@ func (wd *world) poll(s *session, allowExpunge bool) {
 				wd.fail("unexpected-update", fmt.Sprintf("%s got %q but the next expected update is %v", s.name, strings.TrimSpace(string(l.Raw)), headOf(s.pending)))
 				return
 			}
-			ev := s.pending[0]
-			s.pending = s.pending[1:]
-			if int(l.Num) != len(s.view)+len(ev.ids) {
-				wd.fail("exists-count", fmt.Sprintf("%s got EXISTS %d, view has %d messages and %d were appended", s.name, l.Num, len(s.view), len(ev.ids)))
+			// an EXISTS may announce the messages of several consecutive appends at once
+			// (merging count updates is legitimate): consume appended ids in order
+			need := int(l.Num) - len(s.view)
+			if need < 0 {
+				wd.fail("exists-count", fmt.Sprintf("%s got EXISTS %d with %d messages already in its view", s.name, l.Num, len(s.view)))
 				return
 			}
-			s.view = append(s.view, ev.ids...)
+			for need > 0 {
+				if len(s.pending) == 0 || s.pending[0].kind != "exists" {
+					wd.fail("exists-count", fmt.Sprintf("%s got EXISTS %d: that is %d more messages than were appended before the next pending update %v (view has %d)", s.name, l.Num, need, headOf(s.pending), len(s.view)))
+					return
+				}
+				ev := &s.pending[0]
+				k := len(ev.ids)
+				if k > need {
+					k = need
+				}
+				s.view = append(s.view, ev.ids[:k]...)
+				ev.ids = ev.ids[k:]
+				need -= k
+				if len(ev.ids) == 0 {
+					s.pending = s.pending[1:]
+				}
+			}
 		case "EXPUNGE":
 			if !allowExpunge {
 				wd.fail("expunge-when-disallowed", fmt.Sprintf("%s got %q while answering a non-UID FETCH", s.name, strings.TrimSpace(string(l.Raw))))
